@@ -27,6 +27,8 @@
 #include <new>
 #include <utility>
 
+#include <dispenso/platform.h>
+
 namespace dispenso {
 
 /**
@@ -287,7 +289,7 @@ class SmallVector {
       // args may refer to an element of this vector (e.g. v.push_back(v[0])), so construct the new
       // element in the new block before the old elements are moved out and their storage released.
       size_type newCap = capacity() * 2;
-      ptr = static_cast<T*>(::operator new(newCap * sizeof(T)));
+      ptr = allocate(newCap);
       new (ptr + idx) T(std::forward<Args>(args)...);
       moveToHeap(ptr, newCap);
     }
@@ -418,14 +420,31 @@ class SmallVector {
       ptr[i].~T();
     }
     if (!isInline()) {
-      ::operator delete(storage_.heap_.ptr);
+      deallocate(storage_.heap_.ptr);
+    }
+  }
+
+  // Plain operator new only guarantees alignof(std::max_align_t); over-aligned element types get
+  // their heap storage from alignedMalloc.
+  static constexpr bool kOverAligned = alignof(T) > alignof(std::max_align_t);
+
+  static T* allocate(size_type n) {
+    return static_cast<T*>(
+        kOverAligned ? detail::alignedMalloc(n * sizeof(T), alignof(T)) : ::operator new(n * sizeof(T)));
+  }
+
+  static void deallocate(T* ptr) noexcept {
+    if (kOverAligned) {
+      detail::alignedFree(ptr);
+    } else {
+      ::operator delete(ptr);
     }
   }
 
   // Grow to heap storage with the specified capacity.
   // Moves existing elements, frees old heap if applicable, sets heap bit.
   void growToHeap(size_type newCap) {
-    moveToHeap(static_cast<T*>(::operator new(newCap * sizeof(T))), newCap);
+    moveToHeap(allocate(newCap), newCap);
   }
 
   // Move the elements into the (raw) block newData of capacity newCap and make it the storage.
@@ -439,7 +458,7 @@ class SmallVector {
     }
 
     if (!isInline()) {
-      ::operator delete(storage_.heap_.ptr);
+      deallocate(storage_.heap_.ptr);
     }
 
     storage_.heap_.ptr = newData;
